@@ -1069,6 +1069,25 @@ def n8_while_preinc(node):
                "_line": cond.get("_line")}
         n0["inner"][0] = ref
         inc1, inc2 = copy.deepcopy(l0), copy.deepcopy(l0)
+        # `v = c;` right before the loop: the loop starts at c + 1 (written as such, so that the range of the loop is read off its header)
+        if i > 0 and l0.get("opcode") == "++":
+            prev = inner[i - 1]
+            p0 = prev
+            while isinstance(p0, dict) and p0.get("kind") in ("ParenExpr", "ImplicitCastExpr"):
+                p0 = p0["inner"][0]
+            if isinstance(p0, dict) and p0.get("kind") == "BinaryOperator" and p0.get("opcode") == "=" and p0["inner"][0].get("kind") == "DeclRefExpr" and \
+                    p0["inner"][0]["referencedDecl"]["name"] == name:
+                r0 = p0["inner"][1]
+                while r0.get("kind") in ("ParenExpr", "ImplicitCastExpr"):
+                    r0 = r0["inner"][0]
+                cst = None
+                if r0.get("kind") == "IntegerLiteral":
+                    cst = int(r0["value"])
+                elif r0.get("kind") == "UnaryOperator" and r0.get("opcode") == "-" and r0["inner"][0].get("kind") == "IntegerLiteral":
+                    cst = -int(r0["inner"][0]["value"])
+                if cst is not None and cst + 1 >= 0:
+                    inc1 = copy.deepcopy(p0)
+                    inc1["inner"][1] = {"kind": "IntegerLiteral", "type": v.get("type"), "valueCategory": "prvalue", "value": str(cst + 1), "_line": cond.get("_line")}
         inner[i] = {"kind": "ForStmt", "_line": w.get("_line"), "range": w.get("range"), "inner": [inc1, {}, newcond, inc2, w["inner"][1]]}
 
 
